@@ -507,9 +507,35 @@ func suiteC19(s *Suite, rng *Rng, tier string) {
 			}
 		}
 	}
+	// safe-prime recognition on every integer of a small domain, against trial division (x is a safe prime iff x and (x-1)/2
+	// are prime: 5, 7, 11, 23, 47, ...)
+	{
+		isPrime := func(n int64) bool {
+			if n < 2 {
+				return false
+			}
+			for d := int64(2); d*d <= n; d++ {
+				if n%d == 0 {
+					return false
+				}
+			}
+			return true
+		}
+		top := int64(1 << 12)
+		if tier == "thorough" {
+			top = 1 << 16
+		}
+		for x := int64(-8); x < top; x++ {
+			want := x > 2 && isPrime(x) && isPrime((x-1)/2)
+			if got := safeprime.ProbablySafePrime(bi(x), 20); got != want {
+				s.Violate("C19:safeprime-recognition-wrong", fmt.Sprintf("ProbablySafePrime(%d) = %v, by trial division %v", x, got, want), L{x})
+			}
+		}
+		s.Dist["safeprime-recognition-exhaustive"] += int(top + 8)
+	}
 	s.Notes["rule"] = fmt.Sprintf("Legendre/Jacobi and PrimeSqrt: all a in [-p,2p) for all primes p < %d (1/%d sampled by seed in quick), Jacobi for odd composites < 400; four squares: all n < %d "+
 		"(sampled) + random to 300 bits; ModSqrt: products of two primes < 100 with/without factor 4 against brute force; ModInverse/ModPow/Crt small exhaustive-ish and random to 4096 bits; "+
-		"FastMod: all moduli 2^b-c, b<=12, negative/huge/aliased operands + large moduli; RandomPrimeInRange candidates and sieve; prepareBytes; safe prime generation at 16..64 bits", pmax, stride, nmax)
+		"FastMod: all moduli 2^b-c, b<=12, negative/huge/aliased operands + large moduli; RandomPrimeInRange candidates and sieve; prepareBytes; safe prime generation at 16..64 bits; safe-prime recognition on every integer from -8 to 2^12 (2^16 thorough) against trial division", pmax, stride, nmax)
 }
 
 func catchPanic(f func()) (msg string) {
